@@ -259,6 +259,13 @@ pub fn generate(a: &Args) {
             for cidx in 0..calls {
                 let llrs: Vec<f64> = if cidx == 0 { llrs.clone() } else { draw(&mut rng2, i + cidx) };
                 let limit = if cidx == 0 { limit } else { [0usize, 1, 2, 3, 4, 6, 10][(i + cidx) % 7] };
+                // TLC computes the textbook values in 32-bit integers: with repeated checks the exact integer messages grow like
+                // (column weight + 1)^iterations, so the limit of such a case is lowered until the a-priori bound fits (the real
+                // decoder's 64-bit run would be fine; runaway float messages are C01's business)
+                let dv = (0..n).map(|v| rows.iter().filter(|r| r.contains(&v)).count()).max().unwrap_or(0) as f64;
+                let l4 = llrs.iter().fold(1.0f64, |m, x| m.max((4.0 * x).abs()));
+                let mut limit = limit;
+                while limit > 0 && l4 * (dv + 1.0).powi(limit as i32) > (1u64 << 26) as f64 { limit -= 1; }
                 out.new_case();
                 let res = guarded(|| {
                     if layered { hl.as_mut().expect("ctor").decode(&llrs, limit) } else { fl.as_mut().expect("ctor").decode(&llrs, limit) }
